@@ -20,12 +20,29 @@ var progress atomic.Int64
 
 func TestMain(m *testing.M) {
 	run = vk.Start("C11", "exploration")
-	run.Rule("event sequences over {Up,Down,Open,Close,restart-timer expiry, RCR acceptable/nak-able/rejectable/mixed, RCA/RCN/RCJ carrying each of: the identifier of the automaton's latest Configure-Request (cur), of an older Configure-Request (old), of the latest packet it originated that is not a Configure-Request - Code-Reject, Protocol-Reject, Echo-Request, Terminate-Request - (nc), an identifier it never used (new), RCA cur with altered options, RTR, RTA, unimplemented code (LCP answers Code-Reject), peer Code-Reject critical/other, and for LCP: peer Protocol-Reject LCP/other, echo 0/3/4/8 bytes, Discard, SendProtocolReject by the server, SendEchoRequest, one keep-alive ticker tick (SessionKeepAlive in virtual time); and reply/request/terminate packets delivered while the restart timer fires (handler held inside the automaton's lock across the timer instant)} against the real LCP, IPCP and IPv6CP automata in virtual time: breadth-first with fingerprint (state, monitor booleans, restart counter, timer, identifier situation: older-request id exists, non-Configure packet sent before/after the latest request) to a fixed point or the depth bound, option contents seeded-random, plus seeded random walks with partial time advances; every sequence ends with a silent-peer run. All identifiers and option lists used for peer replies are taken from the packets the automaton handed to the send callback. non-trivial = distinct sequence in which the automaton sent a Configure-Request and a delivered packet moved it to another state (the negotiation code was reached), or distinct (automaton, state, reply kind, identifier class) in which a reply with a non-matching identifier reached the identifier check")
+	run.Rule("event sequences over {Up,Down,Open,Close,restart-timer expiry, RCR acceptable/nak-able/rejectable/mixed, RCA/RCN/RCJ carrying each of: the identifier of the automaton's latest Configure-Request (cur), of an older Configure-Request (old), of the latest packet it originated that is not a Configure-Request - Code-Reject, Protocol-Reject, Echo-Request, Terminate-Request - (nc), an identifier it never used (new), RCA cur with altered options, RTR, RTA, unimplemented code (LCP answers Code-Reject), peer Code-Reject critical/other, and for LCP: peer Protocol-Reject LCP/other, echo 0/3/4/8 bytes, Discard, SendProtocolReject by the server, SendEchoRequest, one keep-alive ticker tick (SessionKeepAlive in virtual time); and reply/request/terminate packets delivered while the restart timer fires (handler held inside the automaton's lock across the timer instant)} against the real LCP, IPCP and IPv6CP automata in virtual time: breadth-first with fingerprint (state, monitor booleans, restart counter, timer, identifier situation: older-request id exists, non-Configure packet sent before/after the latest request) to a fixed point or the depth bound, option contents seeded-random, plus seeded random walks with partial time advances; every sequence ends with a silent-peer run. All identifiers and option lists used for peer replies are taken from the packets the automaton handed to the send callback. non-trivial = distinct sequence in which the automaton sent a Configure-Request and a delivered packet moved it to another state (the negotiation code was reached), or distinct (automaton, state, reply kind, identifier class) in which a reply with a non-matching identifier reached the identifier check. Request content: besides the acceptable/nak-able/rejectable/mixed lists, peer Configure-Requests with one option alone (RCRone), a repeated option with the same value (RCRdup), a repeated option type with conflicting values (RCRdupx), no options (RCRempty) - these four also in the breadth-first alphabet -, unknown/unsupported/wrong-length options between negotiable ones (RCRunk), all negotiable options in every order (RCRperm), lists filling the 1488 option bytes of a PPPoE-sized packet (RCRmax) and everything mixed (RCRall) in random walks; TestRequestContent puts each automaton into each of the ten RFC 1661 states and delivers a differential sandwich (every distinct option of a composite request alone, the composite request, the same options alone again), also drawn inside random walks. non-trivial for these = distinct (automaton, content class computed from the request bytes, state, answer code) that reached the option processing, or distinct (automaton, state, option) judged by the differential clause")
 	run.Assume("the restart timer is armed when a Configure-/Terminate-Request is handed to the send callback (used only to aim the timer-vs-packet schedules, not by any oracle clause)")
 	run.Assume("a Configure-Ack whose identifier matches the latest request counts as the peer's acknowledgement whatever its option bytes (the anchor's mechanism: identifier match; RFC 1661 5.2 would also let the automaton discard an Ack whose options differ, so both behaviours are accepted and the altered-options Ack is only counted)")
 	run.Assume("packets the automaton's parser refuses with an error are not events of the property's alphabet and are not generated")
 	run.Assume("VerifC11RestartCount/VerifC11TimerSet return the automaton's restart counter and whether its restart timer field is set; the non-matching-reply clause uses them to see that a discarded reply neither reset the counter nor touched the timer")
 	run.Assume("a Configure-Ack/-Nak/-Reject delivered before the automaton ever sent a Configure-Request has no identifier to match; what the automaton does with it is not judged by the discard clause (Opened is still judged)")
+	run.Assume("whether an option is acceptable may depend, besides the option itself, only on the automaton's configuration and - for IPCP - on the address currently assigned to the session; options carrying a value the automaton itself used (magic number, interface identifier) are excluded from the differential clause because their answer depends on the automaton's current value")
+	run.Assume("the differential clause (an acknowledged request must not contain an option the automaton refuses when it stands alone) is judged only from the automaton's own answers: in a sandwich the single-option answer must be the same before and after the composite request; across cases a (context, option) pair that was ever acknowledged alone is not judged")
+	run.Assume("RFC 1661 5.3 lets a Configure-Nak carry several instances / other values of an option type of the request, so only the option types of a Nak are compared with the request; the order of options inside a Configure-Reject is not judged (the statement does not fix it)")
+	run.Floor("rcr_content_repeated-type-same-value_answered_ConfAck", 1000)
+	run.Floor("rcr_content_repeated-type-same-value_LCP", 500)
+	run.Floor("rcr_content_repeated-type-same-value_IPCP", 500)
+	run.Floor("rcr_content_repeated-type-same-value_IPV6CP", 300)
+	run.Floor("rcr_content_repeated-type-conflicting-values", 1500)
+	run.Floor("rcr_content_empty", 1000)
+	run.Floor("rcr_content_maximal", 200)
+	run.Floor("acks_of_multi_option_requests_checked_against_single_option_answers", 2000)
+	run.Floor("rejects_copy_count_judged", 5000)
+	run.Floor("differential_acked_option_judged", 800)
+	run.Floor("differential_acked_option_judged_of_repeated_type", 150)
+	run.Floor("differential_acked_option_judged_LCP", 300)
+	run.Floor("differential_acked_option_judged_IPCP", 300)
+	run.Floor("differential_acked_option_judged_IPV6CP", 50)
 	run.Floor("silence_runs", 2000)
 	run.Floor("opened_observations", 100)
 	run.Floor("replies_judged", 1000)
@@ -111,6 +128,9 @@ func execSeq(t *testing.T, sp *spec, seq []ev, judgeFrom int) (res result) {
 			res.app[k] = c.applicable(k)
 		}
 		res.nontriv = sentReq && moved
+		if judgeFrom == 0 {
+			c.judgeDifferential()
+		}
 		c.judgeSilence()
 		res.trace = c.trace()
 		res.panicked = c.panics
@@ -128,10 +148,10 @@ func observe(c *caseCtx, rec *evRec) {
 		return
 	}
 	run.Count("events_delivered", 1)
-	run.Count("ev_"+sp.proto+"_"+rec.Kind, 1)
+	run.Count("ev_"+sp.proto+"_"+kindClass(rec.Kind), 1)
 	run.Distinct("states_"+sp.proto, rec.To)
-	run.Distinct("state_event_pairs", sp.proto+"|"+rec.From+"|"+rec.Kind)
-	run.Distinct("transitions", sp.proto+"|"+rec.From+"|"+rec.Kind+"|"+rec.To)
+	run.Distinct("state_event_pairs", sp.proto+"|"+rec.From+"|"+kindClass(rec.Kind))
+	run.Distinct("transitions", sp.proto+"|"+rec.From+"|"+kindClass(rec.Kind)+"|"+rec.To)
 	for _, p := range append(append([]pkt(nil), rec.Pre...), rec.Sent...) {
 		run.Count("sent_"+codeName(p.Code), 1)
 		if p.ByTimer {
@@ -275,7 +295,8 @@ func randomSeq(r *rand.Rand, kinds []string, n int) []ev {
 		}
 	}
 	hot := []string{"RCR+", "RCAcur", "RCR+", "RCAcur", "RCR-", "RCNcur", "RCJcur", "TO", "RACE:RCAcur", "RACE:RCR+", "RTR", "RTA", "RCRmix", "RCRrej",
-		"RCAold", "RCAnc", "RCAnc", "RCAnew", "RCNnc", "RCJnc", "UNK", "UNK", "SPR", "SER", "KA"}
+		"RCAold", "RCAnc", "RCAnc", "RCAnew", "RCNnc", "RCJnc", "UNK", "UNK", "SPR", "SER", "KA",
+		"RCRone", "RCRdup", "RCRdupx", "RCRempty", "RCRunk", "RCRperm", "RCRmax", "RCRall"}
 	in := map[string]bool{}
 	for _, k := range kinds {
 		in[k] = true
@@ -288,6 +309,11 @@ func randomSeq(r *rand.Rand, kinds []string, n int) []ev {
 	}
 	hot = h
 	for len(seq) < n {
+		if r.IntN(16) == 0 {
+			// differential sandwich: every distinct option of a composite request alone, the request, the options alone again
+			seq = append(seq, sandwich(r, compositeShapes[r.IntN(len(compositeShapes))])...)
+			continue
+		}
 		if r.IntN(10) < 6 {
 			add(hot[r.IntN(len(hot))])
 		} else {
